@@ -67,7 +67,7 @@ static void load() {
   funcadd_ASL(&AE);
 }
 
-struct Call { long id; int fn; char mode; std::string dig; std::vector<double> a; };
+struct Call { long id; int fn; char mode; std::string dig; std::vector<double> a; bool measure = false; };
 
 struct Out { double v; std::vector<double> d, h; std::string err; bool haserr; const char *sv; };
 
@@ -114,7 +114,108 @@ static std::string flags(const std::vector<double> &v, bool unwritten) {
   return s + "]";
 }
 
-static void emit(FILE *outf, const Fn &f, const Call &c, const Out &o, const char *fill, bool det) {
+// ---- agreement of the returned partials with numerical differentiation (observation only) ----
+// For a call that reported no error, with every argument one of the plain values 0, +-0.25..3
+// (the caller says so: measure flag), each requested partial is compared with one-sided
+// difference quotients of the binding's OWN values on the left and on the right (steps h, h/2,
+// h/4 with h = 1e-4 * max(1,|x|), Richardson-extrapolated; the second partials from the binding's
+// own first partials).  A side is "stable" when the extrapolations from (h, h/2) and (h/2, h/4)
+// agree to 1e-3 relative; only then can it contradict.  Classes per partial and side:
+//   "ok"  stable and |returned - numerical| <= 1e-3 * scale      scale = max(1, |returned|, |numerical|)
+//   "bad" stable and |returned - numerical| >  1e-2 * scale
+//   "unk" anything else (a neighbouring value not computed, unstable quotient, in between)
+// FuncCall.tla (clause "agree") judges: no "bad" when no error was reported.
+// The second partials are classified under both readings of "upper triangle" (hl/hr: by columns,
+// index i + j(j+1)/2 as in the ASL documentation; hlr/hrr: by rows, index i(2n-i-1)/2 + j as the
+// repository's own gsl-test reads it); they differ only for three or more arguments.
+struct Agree { std::vector<std::string> dl, dr, hl, hr, hlr, hrr; std::string worst; };
+static std::string cls_of(double ret, double num, bool stable, double &gap) {
+  if (!stable || !std::isfinite(ret) || !std::isfinite(num)) return "unk";
+  double scale = std::max(1.0, std::max(std::fabs(ret), std::fabs(num)));
+  gap = std::fabs(ret - num) / scale;
+  return gap <= 1e-3 ? "ok" : gap > 1e-2 ? "bad" : "unk";
+}
+// one-sided Richardson derivative of g along argument j; sgn = +1 right, -1 left
+template <class G> static bool onesided(G g, double g0, const std::vector<double> &x, int j, int sgn, double &est) {
+  double h = 1e-4 * std::max(1.0, std::fabs(x[j]));
+  double q[3];
+  for (int k = 0; k < 3; ++k) {
+    std::vector<double> y(x);
+    double hk = h / (1 << k);
+    y[j] = x[j] + sgn * hk;
+    double gv;
+    if (!g(y, gv) || !std::isfinite(gv)) return false;
+    q[k] = (gv - g0) / (sgn * hk);
+  }
+  double a = 2 * q[1] - q[0], b = 2 * q[2] - q[1];
+  est = b;
+  return std::fabs(a - b) <= 1e-3 * std::max(1.0, std::max(std::fabs(a), std::fabs(b)));
+}
+static Agree measure(const Fn &f, const Call &c, const Out &o) {
+  Agree A;
+  int n = (int)c.a.size();
+  A.dl.assign(o.d.size(), "unk"); A.dr = A.dl;
+  A.hl.assign(o.h.size(), "unk"); A.hr = A.hl; A.hlr = A.hl; A.hrr = A.hl;
+  auto isconst = [&](int i) { return c.dig != "-" && i < (int)c.dig.size() && c.dig[i] == '1'; };
+  auto value_at = [&](const std::vector<double> &y, double &v) {
+    Call c2 = c; c2.a = y; c2.mode = 'v';
+    Out o2 = call_once(f, c2, true);
+    v = o2.v; return !o2.haserr;
+  };
+  double worstgap = -1;
+  char wb[256];
+  for (int i = 0; i < n && i < (int)o.d.size(); ++i) {
+    if (isconst(i)) continue;
+    for (int sgn : {-1, 1}) {
+      double est = 0, gap = 0;
+      bool st = onesided(value_at, o.v, c.a, i, sgn, est);
+      std::string cl = cls_of(o.d[i], est, st, gap);
+      (sgn < 0 ? A.dl : A.dr)[i] = cl;
+      if (cl == "bad" && gap > worstgap) {
+        worstgap = gap;
+        snprintf(wb, sizeof wb, "d/dx%d returned %.12g, %s-sided numerical %.12g", i + 1, o.d[i], sgn < 0 ? "left" : "right", est);
+        A.worst = wb;
+      }
+    }
+  }
+  if (c.mode == 'h')
+    for (int j = 0; j < n; ++j)
+      for (int i = 0; i <= j; ++i) {
+        if (isconst(i) || isconst(j)) continue;
+        size_t idx = (size_t)i + (size_t)j * (j + 1) / 2;
+        size_t idxr = (size_t)i * (2 * n - i - 1) / 2 + j;
+        if (idx >= o.h.size() || idxr >= o.h.size()) continue;
+        auto deriv_at = [&](const std::vector<double> &y, double &v) {
+          Call c2 = c; c2.a = y; c2.mode = 'd';
+          Out o2 = call_once(f, c2, true);
+          if (o2.haserr || i >= (int)o2.d.size()) return false;
+          v = o2.d[i]; return true;
+        };
+        for (int sgn : {-1, 1}) {
+          double est = 0, gap = 0;
+          bool st = onesided(deriv_at, o.d[i], c.a, j, sgn, est);
+          std::string cl = cls_of(o.h[idx], est, st, gap);
+          (sgn < 0 ? A.hl : A.hr)[idx] = cl;
+          double gapr = 0;
+          std::string clr = cls_of(o.h[idxr], est, st, gapr);
+          (sgn < 0 ? A.hlr : A.hrr)[idxr] = clr;
+          if (cl == "bad" && clr == "bad" && gap > worstgap) {
+            worstgap = gap;
+            snprintf(wb, sizeof wb, "d2/dx%ddx%d returned %.12g, %s-sided numerical (of the returned d/dx%d) %.12g", i + 1, j + 1, o.h[idx],
+                     sgn < 0 ? "left" : "right", i + 1, est);
+            A.worst = wb;
+          }
+        }
+      }
+  return A;
+}
+static std::string jlist(const std::vector<std::string> &v) {
+  std::string s = "[";
+  for (size_t i = 0; i < v.size(); ++i) s += (i ? ",\"" : "\"") + v[i] + "\"";
+  return s + "]";
+}
+
+static void emit(FILE *outf, const Fn &f, const Call &c, const Out &o, const char *fill, bool det, const Agree *ag = nullptr) {
   const char *val = (f.type & FUNCADD_STRING_VALUED) ? (o.sv ? "str" : "nullstr")
                     : std::isnan(o.v) ? "nan" : std::isinf(o.v) ? "inf" : "fin";
   const char *err = !o.haserr ? "none" : o.err.size() && o.err[0] == '\'' ? "deriv"
@@ -125,6 +226,14 @@ static void emit(FILE *outf, const Fn &f, const Call &c, const Out &o, const cha
   s += ",\"du\":" + (uw ? flags(o.d, true) : flags(std::vector<double>(o.d.size(), 0.0), false));
   s += ",\"hu\":" + (uw ? flags(o.h, true) : flags(std::vector<double>(o.h.size(), 0.0), false));
   s += std::string(",\"det\":") + (det ? "true" : "false");
+  {
+    Agree none;
+    none.dl.assign(o.d.size(), "unk"); none.dr = none.dl; none.hl.assign(o.h.size(), "unk"); none.hr = none.hl;
+    none.hlr = none.hl; none.hrr = none.hl;
+    const Agree &a = ag ? *ag : none;
+    s += ",\"dl\":" + jlist(a.dl) + ",\"dr\":" + jlist(a.dr) + ",\"hl\":" + jlist(a.hl) + ",\"hr\":" + jlist(a.hr) + ",\"hlr\":" + jlist(a.hlr) + ",\"hrr\":" + jlist(a.hrr);
+    s += ",\"worst\":\"" + a.worst + "\"";
+  }
   std::string m = o.err.substr(0, 90);
   for (auto &ch : m) if (ch == '"' || ch == '\\' || (unsigned char)ch < 32 || (unsigned char)ch > 126) ch = ' ';
   s += ",\"msg\":\"" + m + "\"}\n";
@@ -136,7 +245,12 @@ static void record(FILE *outf, const Fn &f, const Call &c) {
   bool det = memcmp(&o1.v, &o2.v, sizeof(double)) == 0 && same(o1.d, o2.d) && same(o1.h, o2.h) &&
              o1.haserr == o2.haserr && o1.err == o2.err;
   emit(outf, f, c, o0, "nan", det);
-  emit(outf, f, c, o1, "val", det);
+  bool meas = c.measure && c.mode != 'v' && !o1.haserr && !(f.type & (FUNCADD_STRING_VALUED | FUNCADD_RANDOM_VALUED)) && std::isfinite(o1.v);
+  if (meas) {
+    Agree ag = measure(f, c, o1);
+    emit(outf, f, c, o1, "val", det, &ag);
+  } else
+    emit(outf, f, c, o1, "val", det);
   fflush(outf);
   for (void *p : tempmem) free(p);
   tempmem.clear();
@@ -165,6 +279,7 @@ int main(int argc, char **argv) {
     auto it = by_name.find(name);
     if (it == by_name.end()) { fprintf(outf, "{\"e\":\"Crash\",\"id\":%ld,\"what\":\"function not registered\"}\n", c.id); continue; }
     c.fn = it->second; c.dig = dig;
+    if (c.mode == 'D' || c.mode == 'H') { c.measure = true; c.mode = (char)tolower(c.mode); }   // upper case: measure agreement
     char *p = line + off;
     for (int i = 0; i < n; ++i) { char *q; c.a.push_back(strtod(p, &q)); p = q; }
     calls.push_back(c);
